@@ -575,19 +575,43 @@ func (v *Verifier) sliceTableInit(fx *fnExec, g *ssa.Global, st *types.Slice) (S
 		return nil, false
 	}
 	pkg, init := v.findGlobalInit(g)
-	call, ok := init.(*ast.CallExpr)
-	if !ok || len(call.Args) != 1 {
-		return nil, false
-	}
-	tv := pkg.TypesInfo.Types[call.Args[0]]
-	if tv.Value == nil || tv.Value.Kind() != constant.String {
-		return nil, false
+	var str string
+	if lit, isLit := init.(*ast.CompositeLit); isLit {
+		// []byte{c0, c1, ...} with constant elements
+		bs := make([]byte, 0, len(lit.Elts))
+		for _, e := range lit.Elts {
+			if _, kv := e.(*ast.KeyValueExpr); kv {
+				return nil, false
+			}
+			tv := pkg.TypesInfo.Types[e]
+			if tv.Value == nil {
+				return nil, false
+			}
+			n, exact := constant.Int64Val(constant.ToInt(tv.Value))
+			if !exact || n < 0 || n > 255 {
+				return nil, false
+			}
+			bs = append(bs, byte(n))
+		}
+		str = string(bs)
+	} else {
+		call, ok := init.(*ast.CallExpr)
+		if !ok || len(call.Args) != 1 {
+			return nil, false
+		}
+		tv := pkg.TypesInfo.Types[call.Args[0]]
+		if tv.Value == nil || tv.Value.Kind() != constant.String {
+			return nil, false
+		}
+		str = constant.StringVal(tv.Value)
 	}
 	if !v.sliceGlobalReadOnly(g) {
+		if os.Getenv("GOVC_DEBUG") != "" {
+			fmt.Fprintln(os.Stderr, "table", g.Name(), "not read-only")
+		}
 		fx.noteUnspec("package-level table " + g.Name() + " may be written or leaked: treated as unknown")
 		return nil, false
 	}
-	str := constant.StringVal(tv.Value)
 	ref := Term{"tbl$" + san(g.Name()), SInt}
 	fx.declare(ref.S, SInt)
 	fx.assumps = append(fx.assumps, fmt.Sprintf("(assert (> %s 0))", ref.S))
